@@ -82,6 +82,11 @@ func (r *Run) usable(c *pipeline.Case) bool {
 			map[string]interface{}{"tags": c.Tags, "compiler": tail(c.BuildErr, 12)})
 		return false
 	}
+	if c.ExpectTFPkg != "" && c.TFPackage != "" && c.TFPackage != c.ExpectTFPkg {
+		r.violate("case-unavailable/package-clause", c.Name, "", "-", fmt.Sprintf("the generated file says package %q, the configuration places it in package %q", c.TFPackage, c.ExpectTFPkg),
+			map[string]interface{}{"tags": c.Tags})
+		return false
+	}
 	if c.Spec != nil {
 		have := map[string]bool{}
 		for _, t := range c.GeneratedTypes() {
